@@ -25,6 +25,83 @@ func ruleR1_7(w *World, r *Report) {
 		})
 		return hit
 	}
+	// gt2: the edge tells that clause c has more than two literals (lbd > 2 or Len > 2)
+	gt2 := func(ec edgeCond, c ssa.Value) bool {
+		bo, isB := ec.Cond.(*ssa.BinOp)
+		if !isB {
+			return false
+		}
+		call, isCall := bo.X.(*ssa.Call)
+		k, isK := constInt(bo.Y)
+		if !isCall || !isK || len(call.Call.Args) != 1 || call.Call.Args[0] != c {
+			return false
+		}
+		name := w.calleeName(&call.Call)
+		if name != "(*solver.Clause).lbd" && name != "(*solver.Clause).Len" {
+			return false
+		}
+		switch bo.Op {
+		case token.LEQ: // m <= k false  => m > k
+			return !ec.True && k >= 2
+		case token.LSS: // m < k false => m >= k
+			return !ec.True && k >= 3
+		case token.GTR:
+			return ec.True && k >= 2
+		case token.GEQ:
+			return ec.True && k >= 3
+		}
+		return false
+	}
+	excluded := func(b *ssa.BasicBlock, c ssa.Value) bool {
+		for _, ec := range dominatingConds(b) {
+			if gt2(ec, c) {
+				return true
+			}
+		}
+		return false
+	}
+	// falseImpliesGt2: predicate k (a function literal or a function) answers false only for clauses of more than two
+	// literals: every returned value that may be false is produced under such a test of the predicate's own argument
+	falseImpliesGt2 := func(k *ssa.Function) bool {
+		if k == nil || len(k.Blocks) == 0 || len(k.Params) == 0 {
+			return false
+		}
+		c := ssa.Value(k.Params[len(k.Params)-1])
+		ok, rets := true, 0
+		allInstrs(k, func(ins ssa.Instruction) {
+			ret, isRet := ins.(*ssa.Return)
+			if !isRet || len(ret.Results) != 1 {
+				return
+			}
+			rets++
+			mayFalse := func(v ssa.Value, from *ssa.BasicBlock) {
+				if cst, isC := v.(*ssa.Const); isC && cst.Value != nil && cst.Value.String() == "true" {
+					return
+				}
+				if !excluded(from, c) {
+					ok = false
+				}
+			}
+			if phi, isPhi := ret.Results[0].(*ssa.Phi); isPhi && phi.Block() == ret.Block() {
+				for i, e := range phi.Edges {
+					mayFalse(e, phi.Block().Preds[i])
+				}
+			} else {
+				mayFalse(ret.Results[0], ret.Block())
+			}
+		})
+		return ok && rets > 0
+	}
+	funcOfValue := func(v ssa.Value) *ssa.Function {
+		switch x := v.(type) {
+		case *ssa.MakeClosure:
+			f, _ := x.Fn.(*ssa.Function)
+			return f
+		case *ssa.Function:
+			return x
+		}
+		return nil
+	}
 	n := 0
 	for u := range unwatchers(w) {
 		if !touches(u, "wlist") || touches(u, "wlistBin") {
@@ -32,46 +109,55 @@ func ruleR1_7(w *World, r *Report) {
 		}
 		for _, fn := range w.Fns {
 			for _, ci := range callsIn(fn) {
-				if !w.staticCalleeIs(ci, u) {
+				if w.staticCalleeIs(ci, u) {
+					n++
+					key := fmt.Sprintf("%s call #%d of %s", w.FuncName(fn), n, w.FuncName(u))
+					args := ci.Common().Args
+					c := args[len(args)-1]
+					r.Check(excluded(ci.Block(), c), "R1.7", key, w.InstrPos(ci), "dominated by a test that excludes two-literal clauses",
+						"a clause that may have two literals (filed under the binary watch lists) is handed to a function that searches the general watch lists without a bound: index out of range, or a wrong entry removed")
 					continue
 				}
-				n++
-				key := fmt.Sprintf("%s call #%d of %s", w.FuncName(fn), n, w.FuncName(u))
+				// the remover handed as a function value to a helper (`s.removeLearned(n, keep, s.unwatchClause)`): the
+				// helper calls it under a test of its own, or under a predicate it was handed at the same call site
+				h := ci.Common().StaticCallee()
+				if h == nil || !w.InModule(h) || len(h.Blocks) == 0 {
+					continue
+				}
 				args := ci.Common().Args
-				c := args[len(args)-1]
-				ok := false
-				for _, ec := range dominatingConds(ci.Block()) {
-					bo, isB := ec.Cond.(*ssa.BinOp)
-					if !isB {
+				for ai, a := range args {
+					fv := funcOfValue(a)
+					if fv == nil || fv.Object() == nil || fv.Object() != u.Object() || ai >= len(h.Params) {
 						continue
 					}
-					call, isCall := bo.X.(*ssa.Call)
-					k, isK := constInt(bo.Y)
-					if !isCall || !isK || len(call.Call.Args) != 1 || call.Call.Args[0] != c {
-						continue
-					}
-					name := w.calleeName(&call.Call)
-					if name != "(*solver.Clause).lbd" && name != "(*solver.Clause).Len" {
-						continue
-					}
-					// what the edge tells about the measure m (lbd or Len): m > 2 ?
-					gt2 := false
-					switch bo.Op {
-					case token.LEQ: // m <= k false  => m > k
-						gt2 = !ec.True && k >= 2
-					case token.LSS: // m < k false => m >= k
-						gt2 = !ec.True && k >= 3
-					case token.GTR:
-						gt2 = ec.True && k >= 2
-					case token.GEQ:
-						gt2 = ec.True && k >= 3
-					}
-					if gt2 {
-						ok = true
+					pu := h.Params[ai]
+					for _, hi := range callsIn(h) {
+						if hi.Common().Value != ssa.Value(pu) || len(hi.Common().Args) == 0 {
+							continue
+						}
+						n++
+						key := fmt.Sprintf("%s call #%d of %s through %s", w.FuncName(fn), n, w.FuncName(u), w.FuncName(h))
+						c := hi.Common().Args[len(hi.Common().Args)-1]
+						ok := excluded(hi.Block(), c)
+						if !ok {
+							for _, ec := range dominatingConds(hi.Block()) {
+								kc, isCall := ec.Cond.(*ssa.Call)
+								if !isCall || ec.True || len(kc.Call.Args) != 1 || kc.Call.Args[0] != c {
+									continue
+								}
+								pk := paramIndex(h, kc.Call.Value)
+								if pk < 0 || pk >= len(args) {
+									continue
+								}
+								if falseImpliesGt2(funcOfValue(args[pk])) {
+									ok = true
+								}
+							}
+						}
+						r.Check(ok, "R1.7", key, w.InstrPos(ci), "the helper calls the remover only where a test, or the predicate handed with it, excludes two-literal clauses",
+							"a clause that may have two literals (filed under the binary watch lists) is handed to a function that searches the general watch lists without a bound: index out of range, or a wrong entry removed")
 					}
 				}
-				r.Check(ok, "R1.7", key, w.InstrPos(ci), "dominated by a test that excludes two-literal clauses",
-					"a clause that may have two literals (filed under the binary watch lists) is handed to a function that searches the general watch lists without a bound: index out of range, or a wrong entry removed")
 			}
 		}
 	}
@@ -96,6 +182,113 @@ func ruleR1_8(w *World, r *Report) {
 	for _, f := range conflictAnalysers(w) {
 		an[f] = true
 	}
+	// wrappers: functions that are not adders, do not run the analysis themselves and hand one of their own
+	// parameters to an adder
+	type wrapInfo struct {
+		param int
+		call  *ssa.Call
+		x     ssa.Value
+	}
+	wrappers := map[*ssa.Function]wrapInfo{}
+	for _, fn := range w.Fns {
+		if w.PkgName(fn) != "solver" || adders[fn] || an[fn] {
+			continue
+		}
+		callsAn := false
+		for _, ci := range callsIn(fn) {
+			for _, c := range w.Callees[ci] {
+				if an[c] {
+					callsAn = true
+				}
+			}
+		}
+		if callsAn {
+			continue
+		}
+		for _, ci := range callsIn(fn) {
+			call, ok := ci.(*ssa.Call)
+			if !ok || len(w.Callees[call]) != 1 || !adders[w.Callees[call][0]] {
+				continue
+			}
+			x := call.Call.Args[len(call.Call.Args)-1]
+			pi := paramIndex(fn, x)
+			if pi < 0 {
+				continue
+			}
+			if fn.Signature.Recv() != nil {
+				pi--
+			}
+			if pi >= 0 {
+				wrappers[fn] = wrapInfo{param: pi, call: call, x: x}
+			}
+		}
+	}
+	// reasonMissing explores fn from the addition `call` of clause X: the places from which the next iteration of the
+	// loop headed by header (or, with a nil header, a return of fn) is reached without a store reason[...] = X
+	reasonMissing := func(fn *ssa.Function, call *ssa.Call, X ssa.Value, header *ssa.BasicBlock) []string {
+		isReasonStore := func(ins ssa.Instruction) bool {
+			st, ok := ins.(*ssa.Store)
+			if !ok || st.Val != X {
+				return false
+			}
+			ia, ok := st.Addr.(*ssa.IndexAddr)
+			if !ok {
+				return false
+			}
+			_, ok = isFieldLoad(ia.X, "solver.Solver", "reason")
+			return ok
+		}
+		inRegion := func(b *ssa.BasicBlock) bool { return header == nil || loopBlocks(fn, header)[b] }
+		// inner loops whose body sets the reason: assumed to run at least once when they range over the literals
+		// returned by the analyser together with the clause
+		innerSets := map[*ssa.BasicBlock]bool{}
+		for _, h := range loopHeaders(fn) {
+			if h == header || !inRegion(h) {
+				continue
+			}
+			for b := range loopBlocks(fn, h) {
+				for _, ins := range b.Instrs {
+					if isReasonStore(ins) {
+						innerSets[h] = true
+					}
+				}
+			}
+		}
+		missing := map[string]bool{}
+		exploreEdges(call.Block(), &pstate{phi: map[*ssa.Phi]ssa.Value{}, facts: map[string]string{}},
+			func(b *ssa.BasicBlock) bool { return header != nil && (b == header || !inRegion(b)) },
+			func(ins ssa.Instruction, st *pstate) {
+				if ins == ssa.Instruction(call) {
+					st.facts["after"] = "yes"
+					return
+				}
+				if st.facts["after"] != "yes" {
+					return
+				}
+				if isReasonStore(ins) {
+					st.facts["reason"] = "set"
+				}
+				if innerSets[ins.Block()] && ins == ins.Block().Instrs[0] {
+					st.facts["reason"] = "set"
+				}
+				if _, isRet := ins.(*ssa.Return); isRet && header == nil && st.facts["reason"] != "set" {
+					missing[w.InstrPos(ins)] = true
+				}
+			},
+			func(from, to *ssa.BasicBlock, st *pstate) {
+				if st.facts["after"] != "yes" || st.facts["reason"] == "set" {
+					return
+				}
+				if header != nil && to == header {
+					missing[w.InstrPos(from.Instrs[len(from.Instrs)-1])] = true
+				}
+			})
+		var ps []string
+		for p := range missing {
+			ps = append(ps, p)
+		}
+		return sortedStrings(ps)
+	}
 	n := 0
 	for _, fn := range w.Fns {
 		if w.PkgName(fn) != "solver" || adders[fn] {
@@ -114,12 +307,38 @@ func ruleR1_8(w *World, r *Report) {
 		}
 		for _, ci := range callsIn(fn) {
 			call, ok := ci.(*ssa.Call)
-			if !ok || len(w.Callees[call]) != 1 || !adders[w.Callees[call][0]] {
+			if !ok || len(w.Callees[call]) != 1 {
+				continue
+			}
+			var X ssa.Value
+			viaHelper := ""
+			if adders[w.Callees[call][0]] {
+				X = call.Call.Args[len(call.Call.Args)-1]
+			} else if wr, ok := wrappers[w.Callees[call][0]]; ok {
+				// a helper of the loop adds the clause it is handed (`s.backjump(learnt, lits, lvl)`): when it records
+				// the reason itself on every path to its return the obligation is met there; otherwise its call stands
+				// for the addition
+				h := w.Callees[call][0]
+				args := call.Call.Args
+				if h.Signature.Recv() != nil {
+					args = args[1:]
+				}
+				if wr.param >= len(args) {
+					continue
+				}
+				X = args[wr.param]
+				viaHelper = w.FuncName(h)
+				if miss := reasonMissing(h, wr.call, wr.x, nil); len(miss) == 0 {
+					n++
+					r.OK("R1.8", fmt.Sprintf("%s learned clause #%d becomes the reason of its asserting literal", w.FuncName(fn), n), w.InstrPos(call),
+						"reason stored on every path of the helper "+viaHelper+" that adds the clause")
+					continue
+				}
+			} else {
 				continue
 			}
 			n++
 			key := fmt.Sprintf("%s learned clause #%d becomes the reason of its asserting literal", w.FuncName(fn), n)
-			X := call.Call.Args[len(call.Call.Args)-1]
 			// innermost... the outermost loop containing the call is the search loop
 			var header *ssa.BasicBlock
 			for _, h := range loopHeaders(fn) {
@@ -131,68 +350,9 @@ func ruleR1_8(w *World, r *Report) {
 				r.Unk("R1.8", key, w.InstrPos(call), "the clause is not learned inside a search loop")
 				continue
 			}
-			isReasonStore := func(ins ssa.Instruction) bool {
-				st, ok := ins.(*ssa.Store)
-				if !ok || st.Val != X {
-					return false
-				}
-				ia, ok := st.Addr.(*ssa.IndexAddr)
-				if !ok {
-					return false
-				}
-				_, ok = isFieldLoad(ia.X, "solver.Solver", "reason")
-				return ok
-			}
-			// inner loops whose body sets the reason: assumed to run at least once when they range over the literals
-			// returned by the analyser together with the clause
-			innerSets := map[*ssa.BasicBlock]bool{}
-			for _, h := range loopHeaders(fn) {
-				if h == header || !loopBlocks(fn, header)[h] {
-					continue
-				}
-				for b := range loopBlocks(fn, h) {
-					for _, ins := range b.Instrs {
-						if isReasonStore(ins) {
-							innerSets[h] = true
-						}
-					}
-				}
-			}
-			missing := map[string]bool{}
-			started := false
-			exploreEdges(call.Block(), &pstate{phi: map[*ssa.Phi]ssa.Value{}, facts: map[string]string{}},
-				func(b *ssa.BasicBlock) bool { return b == header || !loopBlocks(fn, header)[b] },
-				func(ins ssa.Instruction, st *pstate) {
-					if ins == ssa.Instruction(call) {
-						started = true
-						st.facts["after"] = "yes"
-						return
-					}
-					if st.facts["after"] != "yes" {
-						return
-					}
-					if isReasonStore(ins) {
-						st.facts["reason"] = "set"
-					}
-					if innerSets[ins.Block()] && ins == ins.Block().Instrs[0] {
-						st.facts["reason"] = "set"
-					}
-				},
-				func(from, to *ssa.BasicBlock, st *pstate) {
-					if st.facts["after"] != "yes" || st.facts["reason"] == "set" {
-						return
-					}
-					if to == header {
-						missing[w.InstrPos(from.Instrs[len(from.Instrs)-1])] = true
-					}
-				})
-			_ = started
+			missing := reasonMissing(fn, call, X, header)
 			if len(missing) > 0 {
-				var ps []string
-				for p := range missing {
-					ps = append(ps, p)
-				}
-				r.Bad("R1.8", key, w.InstrPos(call), "the next iteration can start (from "+strings.Join(sortedStrings(ps), ", ")+") without the learned clause having been recorded as the reason of the literal it asserts: later conflict analysis resolves that literal away as if it were a decision and learns clauses that are not implied")
+				r.Bad("R1.8", key, w.InstrPos(call), "the next iteration can start (from "+strings.Join(missing, ", ")+") without the learned clause having been recorded as the reason of the literal it asserts: later conflict analysis resolves that literal away as if it were a decision and learns clauses that are not implied")
 			} else {
 				r.OK("R1.8", key, w.InstrPos(call), "reason stored on every path to the next iteration")
 			}
@@ -309,14 +469,35 @@ func ruleR1_10(w *World, r *Report) {
 		return
 	}
 	for _, root := range roots {
+		// the analyser, the Solver methods it calls, and the plain helper functions those hand a constraint to
+		// (`hasUnmetLit(reason, met)`): methods of the constraint type itself are its accessors, not analysis steps
 		fns := []*ssa.Function{root}
-		for _, ci := range callsIn(root) {
-			for _, c := range w.Callees[ci] {
-				if w.PkgName(c) == "solver" && c.Signature.Recv() != nil && typeShort(c.Signature.Recv().Type()) == "*solver.Solver" && c != root {
-					fns = append(fns, c)
+		var add func(from *ssa.Function, depth int)
+		add = func(from *ssa.Function, depth int) {
+			for _, ci := range callsIn(from) {
+				c := ci.Common().StaticCallee()
+				if c == nil || w.PkgName(c) != "solver" || c == root || len(c.Blocks) == 0 {
+					continue
+				}
+				isSolverMethod := c.Signature.Recv() != nil && typeShort(c.Signature.Recv().Type()) == "*solver.Solver"
+				takesClause := false
+				if c.Signature.Recv() == nil {
+					for i := 0; i < c.Signature.Params().Len(); i++ {
+						if typeShort(c.Signature.Params().At(i).Type()) == "*solver.Clause" {
+							takesClause = true
+						}
+					}
+				}
+				if !isSolverMethod && !takesClause {
+					continue
+				}
+				fns = append(fns, c)
+				if depth < 2 {
+					add(c, depth+1)
 				}
 			}
 		}
+		add(root, 1)
 		seenFn := map[*ssa.Function]bool{}
 		for _, fn := range fns {
 			if seenFn[fn] {
